@@ -28,7 +28,7 @@ def run_case(case, workdir):
 
 
 def aggregate(outcomes):
-    fixed = sorted({o["case"]["force"]["n_steps"] for o in outcomes if o["case"].get("force")})
+    fixed = sorted({o["case"]["force"]["n_steps"] for o in outcomes if (o.get("case") or {}).get("force")})
     return {"fixed_n_steps_enumerated": [fixed[0], fixed[-1]] if fixed else None}
 
 
